@@ -39,7 +39,9 @@ CLAIMED = {
         "taken from the source, on every path); every element-wise loop over several operands advances all its "
         "iterators exactly once per iteration on every path; no comparison or std::equal/mismatch in the array classes and IndexRange "
         "compares an operand with itself (regularity and equality tests look at both things they are about); Array<N>::resize (N > 1) starts every sub-array outside the recorded "
-        "old outer range from empty before resizing it, so re-exposed rows are zero (defect F18, fixed).",
+        "old outer range from empty before resizing it, so re-exposed rows are zero (defect F18, fixed); a full iterator is at the end or at a non-empty sub-array (operator++ tests every newly loaded "
+        "sub-array range for emptiness before returning, begin_all() starts at a sub-array tested to be non-empty; F31, fixed); VectorWithOffset::resize assigns T() to every element outside the overlap of "
+        "old and new range (F32, fixed); the index range of an operand enters grow()/resize() only where the operand is known to be non-empty (F33, fixed).",
         technique="static analysis: interval entailment from must-facts over clang CFG, loop-shape invariants, API post-condition summaries",
     ),
     "C05": dict(
@@ -182,7 +184,9 @@ CLAIMED = {
         "dominated by range tests of tangential, axial and TOF index and bin_value>0 is the first acceptance test; the amount added is "
         "bin_value*event_increment with the documented prompt/delayed increment and the event budget decreases by the same increment; "
         "each allocated batch is saved and freed with the same window on every normal path; list-mode subsets select events by the "
-        "residue class of the basic view. NOT decided: event->detector decoding per scanner, time-frame arithmetic, frame additivity, "
+        "residue class of the basic view. For the cached list-mode objective: the per-thread images the call-back accumulates into are all added to the output image after the event loop in "
+        "the as-built and the OpenMP configuration (F24, fixed); the additive term cached for an event is taken from the piece whose segment AND TOF bin equal the event's (F25, fixed); a batch that "
+        "continues in the stream without rewinding restores the clock from saved state. NOT decided: event->detector decoding per scanner, time-frame arithmetic, frame additivity, "
         "list-mode gradient = sinogram gradient (numerical).",
         technique="static analysis: normalised loop descriptors, interval entailment from must-facts with a callee effect summary, "
         "must-pass-through pairing",
@@ -203,8 +207,8 @@ CLAIMED = {
         "both voxels' kappa, and the result is multiplied exactly once by penalisation_factor; by closed-form algebra (sympy, both signs of "
         "x-y, symbolic parameters) the gradient summand is d/dx of the value's two visits of the voxel pair including the scale factors, "
         "vanishes for equal voxels, derivative_20/derivative_11 are its partial derivatives and derivative_11 is symmetric; in "
-        "accumulate_Hessian_times_input the summand is w*(d20*v_c + d11*v_nb) off the centre and w*d20*v_c at the centre and every "
-        "`continue` shortcut only skips summands that vanish under its condition (H v stays linear in v). NOT decided: "
+        "accumulate_Hessian_times_input the summand is w*(d20*v_c + d11*v_nb) off the centre, the centre element is skipped or treated by the same formula (defect F26, fixed) and every "
+        "`continue` shortcut only skips summands that vanish under its condition (H v stays linear in v); value, gradient, Hessian row, Hessian-times-input and surrogate curvature of one prior sum over the same neighbourhood (per axis the same offset range). NOT decided: "
         "PLSPrior, positive semi-definiteness, floating-point agreement with finite differences, degenerate epsilon == 0 branches.",
         technique="static analysis: loop-bound shape rule for neighbour offsets, closed-form calculus (sympy) on extracted summands "
         "with helper functions inlined",
@@ -216,7 +220,7 @@ CLAIMED = {
         "arguments) up to forward_project<->back_project; forward projection into a data set writes only set_related_viewgrams of its "
         "subset and fill(0) under the zero flag; only the image-taking back_project wrapper starts a new target; the on-the-fly ray-tracing "
         "projector's tangential loop starts at the smallest |tangential position| of the requested range in all three sign configurations "
-        "(case analysis). the range-taking convenience overloads of the projector base classes hand the caller's viewgrams and ranges to the implementation slot by slot (missing ranges = the viewgrams' full ranges) and the forward wrappers write nothing themselves. Linearity, adjointness, additivity and on-the-fly = matrix equality are numerical and NOT decided.",
+        "(case analysis). the range-taking convenience overloads of the projector base classes hand the caller's viewgrams and ranges to the implementation slot by slot (missing ranges = the viewgrams' full ranges) and the forward wrappers write nothing themselves; in the on-the-fly projector every proj_Siddon call fills every axial position its consumer loop reads; sibling implementations of actual_forward_project agree on overwriting the data present in the viewgrams (plain assignment, or - where the kernels accumulate with += - the requested range of every viewgram is set to 0 before the first kernel call; defect F34, fixed). Linearity, adjointness, additivity and on-the-fly = matrix equality are numerical and NOT decided.",
         technique="static analysis: dual sibling comparison of call skeletons, must-facts guards, who-may-call, sign-case evaluation of "
         "an integer expression",
     ),
@@ -231,8 +235,12 @@ CLAIMED = {
         "non-vectorised exam-information key is emitted under conditions on its own value only, never on what is stored under another key; a key whose value comes "
         "from the image (first pixel offset, image scaling factor, data offset) is left out of the header only when its value is the "
         "default the reader classes give that key's storage (sentinel / 1 / 0; one default on every reader path), so a missing key "
-        "reads back as what was written. NOT "
-        "decided: value preservation/quantisation bounds numerically, exam-info values through formatting/parsing, dynamic/parametric "
+        "reads back as what was written; a key the reader registers for one `type of data` only is written for that type only (known finding F28: data offset in bytes for NM data); "
+        "the header writers leave the formatting state of the header stream as they found it (sticky manipulators / precision()/flags() put back on every path); "
+        "every literal value written for a key with a value list is in the reader's list, and where enumerators are mapped to strings by a switch, enumerator e is written as list entry e (F27, fixed); "
+        "per exam-info attribute the writer's bound on the getter implies the reader's bound on what it hands to the setter (F29, fixed); scale factors, calibration factor and frame times are written with "
+        "at least max_digits10 digits of their type (F30, fixed). NOT "
+        "decided: value preservation/quantisation bounds numerically, precision of voxel sizes/offsets, dynamic/parametric "
         "container bookkeeping.",
         technique="static analysis: writer/reader key-table agreement, must-pass-through, switch exhaustiveness and sibling agreement, "
         "expression-shape algebra",
@@ -290,8 +298,9 @@ CLAIMED = {
         "voxelwise loops advance all their iterators exactly once per iteration on every path, divide() zeroes an element only when both "
         "|denominator| and |numerator| are below the threshold, the multiplicative update multiplies element by element; an inter-update / "
         "inter-iteration filter is only ever applied through the positivity-preserving wrapper set_up installs around it (chained with a "
-        "threshold), on every path. The EM update formula, "
-        "non-negativity, monotonicity, count preservation and restart equivalence are NOT decided.",
+        "threshold), on every path; the subset a sub-iteration uses (ordered schedule) and the interval decisions of end_of_iteration_processing are "
+        "functions of the sub-iteration number and shared settings only, never of start_subiteration_num (structural part of restartability). The EM update formula, "
+        "non-negativity, monotonicity, count preservation and equality of resumed and uninterrupted images are NOT decided.",
         technique="static analysis: must-pass-through ordering with resolved operands, closed-form evaluation of a straight-line loop "
         "body and exact piecewise-linear comparison",
     ),
